@@ -27,6 +27,8 @@ def main_cli():
         print(k, v, '   e.g.', ex[k][0][1][:200])
     json.dump({'%s|%s' % k: [{'kind': 'cli', 'clause': c, 'scenario': byid[t], 'property': pid} for t, c in v[:4]] for k, v in ex.items()}, open('/tmp/dbgfam.json', 'w'))
     print('%d scenarios, %d with clauses; examples in /tmp/dbgfam.json' % (len(scen), len(bad)))
+    for p, log in getattr(ctx, 'crashes', []):
+        print('HARNESS PROCESS KILLED on', p, '\n', '\n'.join(l for l in log.splitlines() if 'dgrr/http2.' in l or 'fatal' in l or 'main.' in l)[:1500])
 
 
 def main():
@@ -55,5 +57,7 @@ def main():
     out = '/tmp/dbgfam.json'
     json.dump({'%s|%s' % k: [{'kind': 'srv', 'clause': c, 'scenario': byid[t], 'property': pid} for t, c in v[:4]] for k, v in ex.items()}, open(out, 'w'))
     print('%d scenarios, %d with clauses; examples (finding format, one list per key) in %s' % (len(scen), len(bad), out))
+    for p, log in getattr(ctx, 'crashes', []):
+        print('HARNESS PROCESS KILLED on', p, '\n', '\n'.join(l for l in log.splitlines() if 'dgrr/http2.' in l or 'fatal' in l or 'main.' in l)[:1500])
 
 main()
